@@ -27,6 +27,12 @@ type SCtx struct {
 }
 
 func (c *SCtx) setD(v uint64) { c.D, c.WD = v, true }
+
+// SetD, SetSCC, SetEXEC and Jump are the exported forms (deviation models).
+func (c *SCtx) SetD(v uint64)    { c.setD(v) }
+func (c *SCtx) SetSCC(b bool)    { c.setSCC(b) }
+func (c *SCtx) SetEXEC(v uint64) { c.setEXEC(v) }
+func (c *SCtx) Jump(pc uint64)   { c.jump(pc) }
 func (c *SCtx) setSCC(b bool) {
 	c.WSCC = true
 	c.SCCo = 0
